@@ -433,7 +433,9 @@ def s2_s3_update(ctx):
             want = ('attr', g.value, 'direction')
             got = kv[1] if kv[0] == 'on-value' else norm_acc(kv)
             parts = list(got[1]) if got[0] == 'tuple' else [got]
-            head_ok = bool(parts) and T.teq(parts[0], want)
+            # (an Order's direction IS copysign(1, quantity): a direction computed on demand from the quantity reads that way)
+            want2 = ('call', ('ext', 'COPYSIGN'), (T.num(1), ('attr', g.value, 'quantity')), ())
+            head_ok = bool(parts) and (T.teq(parts[0], want) or parts[0] == want2)
             # tie-breakers that follow the direction: harmless only if they reproduce the drain order (enumeration index of the portfolio loop, a running position)
             extras_bad = [q for q in parts[1:] if any(T.teq(s_, g.value) for s_ in T.subterms(q))]
             extras_unknown = [q for q in parts[1:] if q not in extras_bad and not (qkey is not None and any(T.teq(s_, qkey) or (s_[0] == 'elem' and outer is not None and s_[-1] == outer.id) for s_ in T.subterms(q)))]
